@@ -97,17 +97,19 @@ struct Cfg {
     cap: usize,
     batch: usize,
     pb: Option<usize>,
+    /// Timeout answers per worker queue before `recv_timeout` blocks
+    to: usize,
 }
 impl Cfg {
     fn to_s(&self) -> String {
-        format!("{}:{}:{}:{}:{}:{}", self.prop, self.pool, self.workers, self.cap, self.batch, self.pb.map(|p| p.to_string()).unwrap_or("none".into()))
+        format!("{}:{}:{}:{}:{}:{}:{}", self.prop, self.pool, self.workers, self.cap, self.batch, self.pb.map(|p| p.to_string()).unwrap_or("none".into()), self.to)
     }
     fn parse(s: &str) -> Option<Cfg> {
         let p: Vec<&str> = s.split(':').collect();
-        if p.len() != 6 {
+        if p.len() != 7 {
             return None;
         }
-        Some(Cfg { prop: p[0].into(), pool: p[1].into(), workers: p[2].parse().ok()?, cap: p[3].parse().ok()?, batch: p[4].parse().ok()?, pb: p[5].parse().ok() })
+        Some(Cfg { prop: p[0].into(), pool: p[1].into(), workers: p[2].parse().ok()?, cap: p[3].parse().ok()?, batch: p[4].parse().ok()?, pb: p[5].parse().ok(), to: p[6].parse().ok()? })
     }
 }
 
@@ -150,6 +152,7 @@ fn c18_one(c: &Cfg) -> (usize, Vec<String>) {
             _ => format!("{:?}", drv::TlsSeq::new(8).feed(f)),
         })
         .collect();
+    crate::shim::vchan::TIMEOUT_BUDGET.store(c.to, std::sync::atomic::Ordering::Relaxed);
     let n = model(c.pb, move || {
         let mut got: Vec<String> = vec![];
         let mut queued_flags: Vec<bool> = vec![];
@@ -264,6 +267,7 @@ fn c10_one(c: &Cfg) -> (usize, Vec<String>) {
         }
     };
     assert!(seq.len() >= 2, "sequential reference yields {} results; harness would be vacuous", seq.len());
+    crate::shim::vchan::TIMEOUT_BUDGET.store(c.to, std::sync::atomic::Ordering::Relaxed);
     let n = model(c.pb, move || {
         let mut got: Vec<String> = vec![];
         match pool_kind.as_str() {
@@ -348,14 +352,21 @@ fn configs(prop: &str, thorough: bool) -> Vec<Cfg> {
             // one worker: every capacity and batch size; two workers (packets spread over both queues): capacity x batch 1
             for cap in [0usize, 1, 2] {
                 for batch in [1usize, 32] {
-                    v.push(Cfg { prop: prop.into(), pool: pool.into(), workers: 1, cap, batch, pb: Some(if thorough { 3 } else { 2 }) });
+                    v.push(Cfg { prop: prop.into(), pool: pool.into(), workers: 1, cap, batch, pb: Some(if thorough { 3 } else { 2 }), to: 0 });
                 }
-                v.push(Cfg { prop: prop.into(), pool: pool.into(), workers: 2, cap, batch: 1, pb: Some(if thorough { 2 } else { 1 }) });
+                v.push(Cfg { prop: prop.into(), pool: pool.into(), workers: 2, cap, batch: 1, pb: Some(if thorough { 2 } else { 1 }), to: 0 });
             }
         } else {
             for workers in [1usize, 2, 3] {
                 for batch in [1usize, 2, 32] {
-                    v.push(Cfg { prop: prop.into(), pool: pool.into(), workers, cap: 8, batch, pb: Some(if thorough { 3 } else { 2 }) });
+                    v.push(Cfg { prop: prop.into(), pool: pool.into(), workers, cap: 8, batch, pb: Some(if thorough { 3 } else { 2 }), to: 0 });
+                    // the same with one (thorough: also two) Timeout answers per worker queue
+                    if batch != 2 || thorough {
+                        v.push(Cfg { prop: prop.into(), pool: pool.into(), workers, cap: 8, batch, pb: Some(2), to: 1 });
+                    }
+                    if thorough && workers <= 2 {
+                        v.push(Cfg { prop: prop.into(), pool: pool.into(), workers, cap: 8, batch, pb: Some(2), to: 2 });
+                    }
                 }
             }
         }
